@@ -175,6 +175,11 @@ func (s *Server) verifyPriority(pubkey *ecdsa.PublicKey, data *ConsensusCommon) 
 		logging.Error("=======verify priority failed.", "Round", data.Round, "RoundIndex", data.RoundIndex,
 			"Kind", kind, "Sub-Users", data.SubUsers, "step", data.Step, "proposerTh", s.CurrentCaravelParams().ProposerThreshold,
 			"stake", stake, "totalStake", totalStake, "seed", lookBackSeed.String(), "addr", addr.String())
+		if err == nil {
+			// VrfVerifyPriority reports a priority that is not the maximum over the
+			// proposer's seats as (false, nil)
+			err = fmt.Errorf("priority is not the largest hash over the proposer's seats")
+		}
 		return err
 	}
 
